@@ -13,7 +13,7 @@ RULE = ("random trees (depth<=3) whose control files are generated in the kernel
         "range, `max`, both PSI formats (upstream and legacy `aggr`), memory.stat / cgroup.stat with shuffled key order and extra keys, "
         "io.stat with several devices and trailing extra keys, prefer/avoid xattrs on both namespaces, configured io devices and "
         "coefficients, /proc/swaps with 0-2 areas, root cgroup via /proc/meminfo and /proc/pressure (or legacy /proc/mempressure); 4-6 tick "
-        "histories that rewrite files, remove and re-create cgroups, with and without d_type; a scripted probe plugin queries every "
+        "histories that rewrite files, remove and re-create cgroups, make a statistic's file unusable for a single tick (sample gap), with and without d_type; a scripted probe plugin queries every "
         "public accessor of every matched CgroupContext twice per tick (files are rewritten between the two reads) and SystemContext; "
         "each value is compared with the reference computed from the same texts (exact for integers, float32 for PSI, 1e-9 relative for "
         "double-based derived values), plus within-tick stability, re-read on the next tick and identity/fresh history after re-creation. "
@@ -106,8 +106,11 @@ def cases(seed, tier):
         ticks, probe_ops = [], {}
         live = set(rels)
         pswp = CG.parse_kv(proc["vmstat"])["pswpout"]
+        gap_restore = []  # files made unavailable for exactly one tick, restored on the next
         for t in range(nticks):
-            ops = []
+            ops = list(gap_restore)
+            gap_restore = []
+            gapped = set()
             if t > 0:
                 for r in rels:
                     top_alive = all(p in live for p in [r.rsplit("/", k)[0] for k in range(1, r.count("/"))])
@@ -123,6 +126,17 @@ def cases(seed, tier):
                     elif r not in live and x < 0.4 and top_alive:
                         ops.append(dict(op="mk", cg=r, **mk(r)))
                         live.add(r)
+                    elif r in live and x < 0.16 and t < nticks - 1:
+                        # sample gap: the statistic's file is unusable for one tick (history must restart, not resume)
+                        fn = rng.choice(["memory.current", "io.stat", "memory.stat"])
+                        nd = node(rng, [])
+                        if fn == "memory.stat":
+                            gone = "".join(l + "\n" for l in nd["files"][fn].split("\n") if l and not l.startswith("pgscan "))
+                        else:
+                            gone = None
+                        gapped.add(r)
+                        ops.append({"op": "write", "cg": r, "file": fn, "text": gone})
+                        gap_restore.append({"op": "write", "cg": r, "file": fn, "text": nd["files"][fn]})
                     elif r in live and x < 0.7:
                         nd = node(rng, [])
                         for fn in rng.sample(["memory.current", "memory.stat", "io.stat", "memory.pressure", "memory.swap.current", "memory.low", "cgroup.events"], 3):
@@ -130,8 +144,11 @@ def cases(seed, tier):
                 pswp += rng.choice([0, 0, 10, 100000])
                 ops.append({"op": "write", "proc": "vmstat", "text": W.vmstat({"pswpout": pswp})})
             ticks.append({"step_ns": 10**9, "ops": ops})
-            if live and rng.random() < 0.7:
-                r = rng.choice(sorted(live))
+            # the mid-tick rewrite must not repair a sample gap of the same tick (the second read would then be
+            # the first successful sample and the history model would have to follow the probe, not the files)
+            cand = sorted(x for x in live if not any(x == g_ or x.startswith(g_ + "/") or g_.startswith(x + "/") for g_ in gapped))
+            if cand and rng.random() < 0.7:
+                r = rng.choice(cand)
                 nd = node(rng, [])
                 probe_ops[str(t)] = [{"op": "write", "cg": r, "file": fn, "text": nd["files"][fn]} for fn in ("memory.current", "memory.stat", "memory.pressure", "memory.swap.max")]
         pats = "wl,wl/*,wl/*/*,wl/*/*/*" + (",/" if rng.random() < 0.5 else "")
@@ -220,8 +237,11 @@ def judge(case, results):
         for rel in want_rels:
             key = "/" if rel == "" else rel
             g0, g1 = p0["cgs"][key], p1["cgs"].get(key)
-            if g1 != g0:
-                diff = [k for k in g0 if g1 is None or g0[k] != g1.get(k)]
+            # "once obtained, a value does not change within the tick": a statistic that was unavailable on the
+            # first read has not been obtained and may legitimately become available on a later query
+            changed = [k for k in g0 if g0[k] is not None and (g1 is None or g0[k] != g1.get(k))]
+            if changed:
+                diff = changed
                 bad("within-tick-stability", ",".join(diff[:3]), "tick %d cgroup %s: second read differs in %s after files were rewritten mid-tick" % (ti, rel, diff))
                 continue
             exc = [k for k, val in g0.items() if isinstance(val, str) and val.startswith("EXC:")]
